@@ -172,6 +172,9 @@ func runCheck(o checkOpts) checkResult {
 			genErrs = append(genErrs, err.Error())
 			continue
 		}
+		if fx2 := retryWithoutOptional(te, t.pkg, t.key, fx); fx2 != nil {
+			fx = fx2
+		}
 		fxs = append(fxs, fx)
 		queries = append(queries, fx.queries...)
 	}
@@ -455,4 +458,65 @@ func valuesOf(m map[string]string) []string {
 		out = append(out, m[k])
 	}
 	return out
+}
+
+// retryWithoutOptional: `invariant?` clauses are proof aids for one loop shape.  If the only obligations of a function that
+// fail are the establishment / preservation of such clauses, the function is verified again without them; that proof
+// stands on its own (nothing was assumed from the dropped clauses).
+func retryWithoutOptional(e *Engine, pkg, key string, fx *FuncCtx) *FuncCtx {
+	fc := fx.fc
+	optional := map[string]bool{}
+	for k, l := range fc.Loops {
+		for i, c := range l.Invs {
+			if c.Optional {
+				label := c.Name
+				if label == "" {
+					label = fmt.Sprintf("#%d", i+1)
+				}
+				optional[fmt.Sprintf("/loop%d/entry[%s]", k, label)] = true
+				optional[fmt.Sprintf("/loop%d/preserve[%s]", k, label)] = true
+			}
+		}
+	}
+	if len(optional) == 0 {
+		return nil
+	}
+	solve := func(f *FuncCtx) (failedOptionalOnly bool, anyFail bool) {
+		dir, _ := os.MkdirTemp("", "govc-opt-")
+		sv := &Solver{dir: dir, workers: runtime.NumCPU(), quickT: 3, longT: 5, instT: 5, seed: 1, cache: map[string]*solveResult{}, perSolver: map[string]*solverStat{}}
+		sv.solveAll(f.queries)
+		os.RemoveAll(dir)
+		failedOptionalOnly = true
+		for _, q := range f.queries {
+			if q.Canary || q.Status == "unsat" {
+				continue
+			}
+			anyFail = true
+			isOpt := false
+			for suf := range optional {
+				if strings.HasSuffix(q.Obl, suf) {
+					isOpt = true
+				}
+			}
+			if !isOpt {
+				failedOptionalOnly = false
+			}
+		}
+		return failedOptionalOnly, anyFail
+	}
+	onlyOpt, anyFail := solve(fx)
+	if !anyFail || !onlyOpt {
+		return nil
+	}
+	if e.dropOptional == nil {
+		e.dropOptional = map[string]bool{}
+	}
+	e.dropOptional[pkg+":"+key] = true
+	fx2, err := e.verifyFunc(pkg, key)
+	if err != nil {
+		delete(e.dropOptional, pkg+":"+key)
+		return nil
+	}
+	fx2.trusted["optional loop invariants of "+key+" do not hold for this loop shape and were dropped; the function is verified without them"] = true
+	return fx2
 }
